@@ -1,17 +1,21 @@
-"""C09: decided on the save/load stream (harness/msg_stream.py)."""
+"""C09: after load every reference is the attached object itself; a file with
+a dangling or ill-typed reference is rejected with DeserializationError."""
+import fault_stream
 import msg_stream
 
 BOTH_BACKENDS = True
 
 
 def run(ctx):
-    msg_stream.run(ctx, {"C09"})
+    msg_stream.run(ctx, {"C09"}, ctx.scale(150, 3000))
+    fault_stream.run(ctx)
 
 
 def search(ctx, broken):
-    msg_stream.run(ctx, {"C09"}, 1500)
+    ctx.tier = "thorough"
+    run(ctx)
 
 
 def replay(ctx, data):
     print("replay:", str(data["replay"])[:2000])
-    msg_stream.run(ctx, {"C09"})
+    run(ctx)
